@@ -407,7 +407,9 @@ class Runner:
         by_sig: Dict[str, List[int]] = collections.OrderedDict()
         for i in bad:
             by_sig.setdefault(suite.signature(cases[i], outs[i]), []).append(i)
-        for sig, idxs in by_sig.items():
+        # report classes that contain a concrete property failure first (the report budget is small)
+        groups = sorted(by_sig.items(), key=lambda kv: 0 if (bad_prop and any(j in bad_prop for j in kv[1])) else 1)
+        for sig, idxs in groups:
             kf = self.match_finding(sig)
             if kf is not None:
                 msg = f"KNOWN-FINDING: property={self.pid} {kf['what']}"
